@@ -863,15 +863,20 @@ func init() {
 }
 
 func init() {
-	// rt.Guard(m, mu, id): map m must only be read with *mu held and written with it write-held
+	// rt.Guard(m, mu, id): map m must only be read with *mu held and written with it write-held;
+	// with mu == nil the guarding mutex is inferred (lockset discipline, Eraser style): the
+	// mutexes held at every access by a spawned goroutine must have a non-empty intersection
 	rtExternals["Guard"] = func(fr *frame, a []value) value {
 		m, ok := a[0].(iface).v.(*omap)
 		if !ok {
 			panic(engineError{"rt.Guard: not a map"})
 		}
-		mu, ok := a[1].(iface).v.(*value)
-		if !ok {
-			panic(engineError{"rt.Guard: second argument must be a pointer to a mutex"})
+		var mu *value
+		if a[1].(iface).t != nil {
+			mu, ok = a[1].(iface).v.(*value)
+			if !ok {
+				panic(engineError{"rt.Guard: second argument must be nil or a pointer to a mutex"})
+			}
 		}
 		if fr.i.guards == nil {
 			fr.i.guards = map[*omap]guard{}
